@@ -76,6 +76,9 @@ func (fx *FuncExec) heapSet(st *State, key string, t *Term) {
 	fx.eng.heapSorts[key] = t.sort
 	st.heap[key] = t
 	st.wheap[key] = true
+	if fx.discLogOn > 0 {
+		fx.discLog = append(fx.discLog, discWrite{key, t})
+	}
 }
 
 // mergeStates builds the ite-merge of states under their (mutually exclusive)
